@@ -115,6 +115,10 @@ func firstLines(s string, n int) string {
 }
 
 // discharge runs all obligations through the portfolio with a worker pool.
+// knownFailing: obligation names listed as known findings – one short attempt,
+// no escalation (they are expected to fail; do not burn the time budget).
+var knownFailing = map[string]bool{}
+
 func discharge(obls []*Obligation, dir string, timeoutS int, workers int) {
 	var wg sync.WaitGroup
 	sem := make(chan struct{}, workers)
@@ -124,8 +128,12 @@ func discharge(obls []*Obligation, dir string, timeoutS int, workers int) {
 		go func(i int, ob *Obligation) {
 			defer wg.Done()
 			defer func() { <-sem }()
-			r := runSolvers(dir, i, ob.Query, timeoutS, false, "")
-			if r.verdict == "unknown" {
+			to := timeoutS
+			if knownFailing[ob.Name] && to > 4 {
+				to = 4
+			}
+			r := runSolvers(dir, i, ob.Query, to, false, "")
+			if r.verdict == "unknown" && !knownFailing[ob.Name] {
 				// escalate: other random seeds (quantifier instantiation is
 				// order-sensitive), then a longer limit
 				for _, sd := range []int{solverSeed + 7, solverSeed + 13, solverSeed + 101} {
